@@ -3,6 +3,7 @@ From Coq Require Import String.
 From WG Require Import Base.Prelude Codes.Codes Codes.Statements BV.Model BV.RefSel BV.Bits
   BV.BitsFacts BV.Access BV.AccessStatements BV.AccessFacts BV.SelStatements BV.GreedyFacts
   Flags.Props Flags.Statements Flags.PropsFacts Par.Splice Par.SpliceFacts
+  Split.Model Split.Statements Split.SplitFacts Split.RangesFacts
   Links.LoadLinkStatements.
 Require Import ZifyBool ZifyN ZifyNat.
 Local Open Scope N_scope.
@@ -64,6 +65,38 @@ Proof.
   apply (link_load_seq le st f text g _ rest Hw Hst Hg Hvalid).
 Qed.
 
+Lemma nondec_nondecreasing l : nondecreasing l = nondec l.
+Proof.
+  induction l as [|a l IH]; [reflexivity|].
+  destruct l as [|b l]; [reflexivity|].
+  change (nondecreasing (a :: b :: l)) with ((a <=? b) && nondecreasing (b :: l)).
+  change (nondec (a :: b :: l)) with ((a <=? b) && nondec (b :: l)).
+  rewrite IH. reflexivity.
+Qed.
+
+Lemma cuts_ok_legal cuts n :
+  cuts_ok cuts n = true -> hd 0 cuts = 0 -> last cuts 0 = n -> legal_cuts cuts n = true.
+Proof.
+  unfold cuts_ok, legal_cuts. intros H Hh Hl.
+  apply andb_prop in H. destruct H as [H _]. apply andb_prop in H. destruct H as [Hlen Hnd].
+  destruct cuts as [|c0 cuts]; [discriminate|].
+  cbn [hd] in Hh. rewrite nondec_nondecreasing, Hnd, Hlen, Hl, Hh, !N.eqb_refl. reflexivity.
+Qed.
+
+Theorem link_dcf_par_load : S_link_dcf_par_load.
+Proof.
+  intros le st f text g sels arrival rest k Hw Hst Hg Hk cs p cwf cuts Hsels Hperm.
+  assert (Hlegal : legal_cuts cuts (nlen g) = true).
+  { destruct (dcf_of_ok _ (scan g)) as [Hcwf Hn].
+    assert (Hn' : nlen (dcf_of (scan g)) - 1 = nlen g) by (rewrite Hn, nlen_scan; lia).
+    pose proof (dcf_cuts_legal (dcf_of (scan g)) k Hcwf Hk) as Hd. cbv zeta in Hd.
+    rewrite Hn' in Hd. destruct Hd as (Hok & Hh & Hl & _).
+    apply cuts_ok_legal; assumption. }
+  split; [exact Hlegal|].
+  exact (link_load_par le st f text cuts g sels arrival rest Hw Hst Hg Hlegal Hsels Hperm).
+Qed.
+
+Print Assumptions link_dcf_par_load.
 Print Assumptions link_load_par.
 Print Assumptions link_written_codes_ok.
 Print Assumptions link_load_seq.
